@@ -3,6 +3,7 @@
 // signalling pattern so unwritten cells are visible; exact (bitwise) comparison for the integer
 // class and for all copy/extract kernels, gamma_k |X||Y| for real-valued products.
 #include "../drv/vp.h"
+#include "fault.h" // the replaceable allocator: the kernels are void functions and have to give the right answer whether or not memory can be had
 #include <memory>
 #include <cmath>
 #include <vector>
@@ -13,9 +14,9 @@ extern "C" {
 #define VP_MAXDIM 9
 #endif
 
-enum { L_MUL, L_T, L_EYE, L_TRI, L_DIAG, L_TRIL, L_TRIU, L_TALL, L_WIDE, L_SQUARE, L_INNER1, L_3DIFF, L_REALS, L_SIGNED_ZERO, L_TALL2, L_LARGE_DIM, L_WIDE_EXP, L_ALIASED, L_ARENA, L_READONLY, L_INFINITE_ENTRY };
+enum { L_MUL, L_T, L_EYE, L_TRI, L_DIAG, L_TRIL, L_TRIU, L_TALL, L_WIDE, L_SQUARE, L_INNER1, L_3DIFF, L_REALS, L_SIGNED_ZERO, L_TALL2, L_LARGE_DIM, L_WIDE_EXP, L_ALIASED, L_ARENA, L_READONLY, L_INFINITE_ENTRY, L_NO_MEMORY };
 static char const *const labels[] = {"product", "transpose", "eye", "tri_ones", "diag", "triL", "triU", "rows_gt_cols", "cols_gt_rows", "square",
-                                     "inner_dimension_1", "three_pairwise_different_dims", "real_valued_contents", "signed_zero_in_contents", "rows_ge_cols_plus_2", "dimension_ge_15_up_to_140", "wide_exponent_contents", "product_operands_share_storage", "operands_and_result_adjacent_in_one_block", "operands_in_read_only_memory", "infinite_entry_in_contents", nullptr};
+                                     "inner_dimension_1", "three_pairwise_different_dims", "real_valued_contents", "signed_zero_in_contents", "rows_ge_cols_plus_2", "dimension_ge_15_up_to_140", "wide_exponent_contents", "product_operands_share_storage", "operands_and_result_adjacent_in_one_block", "operands_in_read_only_memory", "infinite_entry_in_contents", "allocator_refuses_every_request", nullptr};
 static char const *const metrics[] = {"max_product_error_over_bound", nullptr};
 static uint8_t const dict[] = {0, 1, 2, 3, 8, 9};
 static vp_info const info = {"C09", "linalg", "", labels, metrics, 256, dict, sizeof(dict)};
@@ -127,6 +128,11 @@ static void expect_mat(Ctx &cx, char const *sig, char const *what, Mat const &go
 
 static void run_case(Tape &t, Ctx &cx)
 {
+    // the library's allocator hook is replaced for the case: in half of the cases every request fails (the pinned tree never asks
+    // for memory in these routines; a routine that does must still produce the specified result, it has no way of reporting failure)
+    shim_install();
+    if (t.tail() & 0x80) { g_shim.fail_at = 1; g_shim.mode = 2; cx.label(L_NO_MEMORY); }
+    struct ShimOff { Ctx &cx; ~ShimOff() { g_shim.reset(); } } shim_off{cx};
     unsigned sub = 0;
     do {
         ++sub;
